@@ -106,7 +106,7 @@ theorem binOpWith_congr {r1 r2 : BinOp → TV → TV → Res TV} (op : BinOp) (x
 
 /-! ## rounded quotients -/
 
-theorem isRounded_close {m : RoundMode} {a b q : Int} (hb : b ≠ 0) (h : IsRounded m a b q) :
+theorem isRounded_close {m : RoundMode} {a b q : Int} (_hb : b ≠ 0) (h : IsRounded m a b q) :
     (a - q * b).natAbs < b.natAbs := by
   cases m with
   | truncate => exact h.1
